@@ -12,7 +12,7 @@ CHECKS = {
  "C04": ("MC_Build", "every sequence (all orders, repetitions) of <=3 clash-rich records through the strict constructor and the loaders: outcome class, reported clash pairs, bimap inverse, one owner"),
  "C05": ("MC_Incr", "every history of <=3 add_record calls x 4 flag combinations (narrow pools, deep) and every single add over all one-synonym records (wide, shallow); step law as TLC action property; a TLAPS proof (no bound on sizes or strings) that one add_record step preserves one-owner-per-prefix and the freshness of the prefix map, bridged to the operational specification by a refinement property checked by TLC; an Apalache inductive step over UNBOUNDED strings; behaviours selected by the specification's branch signatures and replayed with a fresh construction after every step; five indexes compared one by one"),
  "C06": ("MC_Query", "standardize_prefix/curie/uri canonical, idempotent, meaning-preserving: declarative formulas on logged answers"),
- "C07": ("MC_Query", "derived operations vs the two primitive parsers, incl. strings that are both CURIE and URI (pool contains the URI prefix 'a:' and the CURIE prefix 'a')"),
+ "C07": ("MC_Query + MC_Hook", "derived operations vs the two primitive parsers, incl. strings that are both CURIE and URI (pool contains the URI prefix 'a:' and the CURIE prefix 'a'); converters whose class overrides the documented standardize_identifier hook (spec/Hooked.tla: the hook as an environment function given by its graph; every converter x hook graph of six shapes x probe string in MC_Hook; on the code five subclasses, the observed graph of the hook logged with every call and validated by TraceHook.tla)"),
  "C08": ("MC_Query", "whole strict x passthrough matrix of the 14 functions: mode laws on logged outcomes incl. exception family"),
  "C09": ("MC_Derive", "chain (both case modes, both orders) and get_subconverter (every prefix subset) over all pairs of base converters (incl. a later record bridging two earlier ones): union, grouping, priority, case-fold separation, restriction; TLAPS proofs (no bound) of the chain laws for one step of the fold; an Apalache inductive check of one chain step over UNBOUNDED strings"),
  "C10": ("MC_Derive + MC_Remap + MC_System", "frame condition as TLC action property (P_C10, and P_C10_sys for the steps that write and read files); after EVERY step the projection of EVERY live converter is compared with its previous one (all six derivations, follow-up merging adds on the derived converter, long tlc -simulate behaviours deriving from derived converters)"),
